@@ -48,3 +48,32 @@ Proof.
     + exists (Z.to_nat p - 1)%nat. split; [lia|]. apply in_seq. lia.
     + apply negb_true_iff. destruct (existsb _ _) eqn:X; [|reflexivity]. apply existsb_exists in X as (q & Hq & Eq). apply Z.eqb_eq in Eq. subst q. contradiction.
 Qed.
+
+(* the same with the GFF3 rows in ANY order (the rows of one feature in any order, features interleaved) *)
+From GF Require Import ConsumerGffAny.
+Theorem bytes_regions_gb_vs_gff_any_order
+  (pre : list section) (items : list (bool * feat * list N * wfeat)) (n : nat) (olines : list (list (list N * list N))) (gblines : list (list N * bool))
+  (regs : list (list N * (nat * nat))) (rows : list grow) (hdr : list N) (chunks : list (list N)) (id : list N) (gs : list group) (gfflines : list (list N * bool)) :
+  let rs := map (fun x => cregion_of (region_gb (fst (fst (fst x))) (snd (fst (fst x))) (snd (fst x)))) items in
+  let genome := degap (map upper (concat chunks)) in
+  let R := map feat_of rows in
+  Forall sec_ok pre -> Forall other_name pre -> items <> [] ->
+  Forall (fun x => writes_cds (fst (fst (fst x))) (snd (fst (fst x))) (snd (fst x)) (snd x)) items ->
+  Forall (Forall piece_ok) olines -> Forall body_line_ok (map origin_line olines) ->
+  Forall (fun le => ok_line (fst le)) gblines ->
+  map fst gblines = flatten (pre ++ [features_section (map snd items); origin_section n olines]) ->
+  Forall wf_region regs -> rows <> [] -> Forall wf_row rows ->
+  first_field hdr = Some id -> concat chunks <> [] -> Forall valid_chunk chunks -> Forall ok_line ((62 :: hdr) :: chunks) ->
+  Forall (fun r => is_cds_row r = true /\ exists i, row_id r = Some i) R -> ids_in_order [] R = map fst gs -> Forall (canonical R) gs ->
+  Forall (fun le => ok_line (fst le)) gfflines ->
+  map fst gfflines = version_line :: map region_line regs ++ map render_row rows ++ bs "##FASTA" :: (62 :: hdr) :: chunks ->
+  length (concat (map (fun l => concat (map snd l)) olines)) = length genome ->
+  Forall2 (fun g x => region_from_gfeats genome (snd g) = Ok x) gs rs -> Forall (fun x => cr_name x <> []) rs ->
+  forall inter, codes rs (length genome) = Ok inter ->
+  regions_of_genbank_text (FastaLayout.render gblines) = Ok (rs, inter) /\
+  regions_of_gff_text (FastaLayout.render gfflines) = Ok (ssort cregion (fun a b => (cr_start a <? cr_start b)%Z) rs, inter).
+Proof.
+  intros rs genome R Hpre Hoth Hne Hit Hp Hb Hgl Egl Hregs Hrne Hrows Hid Hc Hv Hok HR Hids Hcan Hfl Efl Hlen Hreg Hnamed inter Hcodes. split.
+  - rewrite (genbank_bytes_to_regions pre items n olines gblines); try assumption. cbv zeta. fold rs. rewrite Hlen, Hcodes. reflexivity.
+  - rewrite (gff_bytes_to_regions_any_order regs rows hdr chunks id gs rs gfflines); try assumption. fold genome. rewrite Hcodes. reflexivity.
+Qed.
